@@ -560,7 +560,8 @@ def step_init(p, file, step, model, labels):
     changed = [k for k in d0 if k not in d1 or d1[k] != d0[k]]
     if changed:
         cause = "marker-lookalike-inside-section" if _marker_inside_block(before) else "other"
-        if cause == "other" and all(isinstance(d0[k], str) and isinstance(d1.get(k), str) and d0[k] != d1[k] and d0[k].rstrip("\n") == d1[k].rstrip("\n") for k in changed):
+        # (the precise cause first: only the trailing newlines of string values changed)
+        if all(isinstance(d0[k], str) and isinstance(d1.get(k), str) and d0[k] != d1[k] and d0[k].rstrip("\n") == d1[k].rstrip("\n") for k in changed):
             cause = "trailing-newlines-of-keep-block-scalar"
         fails.append(Failure(f"merge|preexisting-value-changed|{cause}", {**ctx, "keys": changed[:5], "before": {k: d0[k] for k in changed[:3]}, "after": {k: d1.get(k, "<gone>") for k in changed[:3]}}))
     # "only adds the linter sections that are missing"
